@@ -199,6 +199,26 @@ pub fn check_c15(rep: &mut Report, thorough: bool) {
         b.extend_from_slice(&suffix);
         must_fail.push(("trailing-bytes".into(), b));
     }
+    // ... and the strictness rules hold under every format version the parser accepts (1, 2, future ones)
+    for v in [1u16, 3, 255, 65535] {
+        let mut rv = raw.clone();
+        rv.version = v;
+        let gv = rv.encode();
+        for suffix in [vec![0u8], vec![0xff], vec![0, 0, 0, 0]] {
+            let mut b = gv.clone();
+            b.extend_from_slice(&suffix);
+            must_fail.push((format!("trailing-bytes-version-{v}"), b));
+        }
+        let mut r2 = rv.clone();
+        r2.image_key = vec![1; 31];
+        must_fail.push((format!("image_key-31-version-{v}"), r2.encode()));
+        let mut r2 = rv.clone();
+        r2.image_nonce = vec![1; 13];
+        must_fail.push((format!("image_nonce-13-version-{v}"), r2.encode()));
+        for k in (0..gv.len()).step_by(7) {
+            must_fail.push((format!("truncate-version-{v}"), gv[..k].to_vec()));
+        }
+    }
     for (label, f) in [
         ("image_hash-31", Box::new(|r: &mut RawExt| r.image_hash = vec![1; 31]) as Box<dyn Fn(&mut RawExt)>),
         ("image_hash-33", Box::new(|r: &mut RawExt| r.image_hash = vec![1; 33])),
@@ -295,6 +315,23 @@ pub fn check_c15(rep: &mut Report, thorough: bool) {
         ("encoding-hex", replace("encoding", vec!["hex"])),
     ] {
         kp_mut.push((label.to_string(), rebuild(tags, &ev.content, ev.kind, &alice.keys)));
+    }
+    // other spellings of the one accepted value of each tag: numerically equal, padded, signed, cased, spaced
+    let val_of = |name: &str| -> String { tags0.iter().find(|t| t.as_slice()[0] == name).and_then(|t| t.as_slice().get(1).cloned()).unwrap_or_default() };
+    for sp in ["1.00", "01.0", "+1.0", "1.+0", "1.0.0", " 1.0", "1.0 ", "1", "1.", "1,0", "v1.0", "1.0\n", "１.０"] {
+        kp_mut.push((format!("protocol-version-spelled-{}", sp.escape_default()), rebuild(replace("mls_protocol_version", vec![sp]), &ev.content, ev.kind, &alice.keys)));
+    }
+    {
+        let cs = val_of("mls_ciphersuite");
+        // (hex digits and the encoding name are compared case-insensitively by design)
+        let variants: Vec<String> = vec![cs.replace("0x", ""), format!(" {cs}"), format!("{cs} "), cs.replace("0x", "0x0"), format!("+{cs}"), "1".into()];
+        for sp in variants.into_iter().filter(|v| *v != cs) {
+            kp_mut.push((format!("ciphersuite-spelled-{}", sp.escape_default()), rebuild(replace("mls_ciphersuite", vec![sp.as_str()]), &ev.content, ev.kind, &alice.keys)));
+        }
+        let enc = val_of("encoding");
+        for sp in [format!(" {enc}"), format!("{enc} "), format!("{enc}url")].into_iter().filter(|v| *v != enc) {
+            kp_mut.push((format!("encoding-spelled-{}", sp.escape_default()), rebuild(replace("encoding", vec![sp.as_str()]), &ev.content, ev.kind, &alice.keys)));
+        }
     }
     {
         use nostr::base64::Engine;
